@@ -113,10 +113,15 @@ func (fs *FileStorage) GetMessages(offset uint64) ([]storage.Message, error) {
 		row  []byte
 		data storage.Message
 	)
-	if _, err = fs.dataFile.Seek(0, 0); err != nil {
-		return nil, fmt.Errorf("failed to seek a offset to the start of a data file:  %w", err)
+	// Read through a descriptor of our own: the handle's descriptor is the one send() rewinds and
+	// counts lines on, and a node polls the board while its API handlers post through the same
+	// handle - sharing the file position makes send() assign wrong offsets.
+	reader, err := os.Open(fs.dataFile.Name())
+	if err != nil {
+		return nil, fmt.Errorf("failed to open a data file for reading:  %w", err)
 	}
-	scanner := bufio.NewScanner(fs.dataFile)
+	defer reader.Close()
+	scanner := bufio.NewScanner(reader)
 	buf := make([]byte, 0, 64*1024)
 	scanner.Buffer(buf, 1024*1024)
 	for scanner.Scan() {
